@@ -65,8 +65,8 @@ def concretize_str(model, s):
             n = mval(model, p.t)
             out.append('%d.%d.%d.%d' % ((n >> 24) & 255, (n >> 16) & 255, (n >> 8) & 255, n & 255))
         elif p.kind == 'ip6':
-            import ipaddress
-            out.append(str(ipaddress.IPv6Address(mval(model, p.t))))
+            from .strings import ip6_text
+            out.append(ip6_text(mval(model, p.t)))
         elif p.kind == 'hex':
             out.append(binascii.b2a_hex(concretize(model, p.t)).decode())
         elif p.kind == 'mac':
